@@ -318,3 +318,49 @@ PROPS['C15'] = dict(
     technique='Coq order-law proofs over Z + exhaustive boundary-pair and random differential correspondence of all comparison operators',
     design_ref='DESIGN.md §6 C15',
 )
+
+# ---------------------------------------------------------------------------
+# C14
+def c14_case_of(inp, obs):
+    # the harness reports the description of the shape it ran and the input value it fed;
+    # the Coq side interprets that description
+    if isinstance(obs, list) and len(obs) == 5:
+        return [[obs[0], obs[1], inp[2], inp[3]], [obs[2], obs[3], obs[4]]]
+    return [[[99], [0, 0], inp[2], inp[3]], [[0, [0, 0]], [], 0]]
+
+def c14_shape_str(t):
+    n = {0: 'P', 10: 'Q', 11: 'D', 12: 'V', 13: 'R', 14: 'Select'}
+    if t[0] in n: return '%s%d' % (n[t[0]], t[1])
+    if t[0] == 1: return '(%s then %s)' % (c14_shape_str(t[1]), c14_shape_str(t[2]))
+    if t[0] == 2: return '(%s and %s)' % (c14_shape_str(t[1]), c14_shape_str(t[2]))
+    if t[0] == 3: return 'map_pair(%s)' % c14_shape_str(t[1])
+    if t[0] == 5: return 'map_vec(%s)' % c14_shape_str(t[1])
+    if t[0] == 6: return 'repeat%d(%s)' % (t[1], c14_shape_str(t[2]))
+    if t[0] == 7: return 'Identity'
+    if t[0] == 8: return 'Constant(%d)' % t[1]
+    if t[0] == 9: return 'wrap(%s)' % c14_shape_str(t[1])
+    if t[0] == 15: return 'GenomeExtractor'
+    return '?'
+
+def c14_describe(inp, obs):
+    sh = c14_shape_str(obs[0]) if isinstance(obs, list) and len(obs) == 5 else 'shape#%d' % inp[0]
+    return '%s applied to %d, probe call #%d fails (-1: none), words %s; observed [shape, input, result, log of (probe, input seen, word), words consumed]' % (sh, inp[1], inp[2], inp[3][:6])
+
+def c14_nontrivial(inp, obs):
+    # at least two probe calls happened
+    return isinstance(obs, list) and len(obs) == 5 and len(obs[3]) >= 2
+
+PROPS['C14'] = dict(
+    corr='CorrC14', judge='(judge_cases judge)', show='(show_cases show [])', case_of=c14_case_of,
+    coq_targets=['theories/Props/C14.vo', 'theories/Corr/CorrC14.vo'],
+    describe=c14_describe, nontrivial=c14_nontrivial, no_shrink=True,
+    bucket=lambda i, o: ['shape=%d' % i[0], 'outcome=%s' % ('ok' if isinstance(o, list) and len(o) == 5 and o[2][0] == 0 else 'err')],
+    classify=lambda i, o: 'shape-%d' % i[0],
+    rule='36 composition shapes covering then / and / map over tuple, array and vector / then_map / Composable::map / apply_twice / apply_n_times (0, 2, 3) / Identity / Constant / Mutate, Recombine, Select by value and by reference / GenomeExtractor, nested up to depth 4, built from probe operators that draw one word from the supplied generator, log (probe id, input seen, word) and fail on command; failure injected at every probe call 0..11 and none; 4 (quick) / 25 (thorough) word streams each. Result, error path (parsed from Debug), call log and number of words consumed are compared with the interpretation of the same shape through Compose.v in coqc. Non-trivial: at least two probe calls happened.',
+    trusted=['error paths are read from the derived Debug rendering of ThenError/AndError/MapError (their fields are private)'],
+    assumptions=['composition shapes are a fixed hand-written family (Rust types are static)'],
+    level_text='Theorems (Props/C14.v) for ARBITRARY component operators and any threaded state: then feeds the first result to the second; and applies both to the same input in order and pairs; map visits elements in index order and its error names the failing index with everything before it done and nothing after it run; repeat = N applications to copies; the first failing part fixes the final state (later parts neither run nor draw); identity/constant/wrappers add nothing; then is associative up to error re-nesting. Tied to the code by probe operators over an explicit word stream on 36 shapes x every failure position.',
+    level_note='Trusted: Coq kernel; harness+driver; Debug rendering of the error enums.',
+    technique='Coq equational theorems over higher-order combinators (arbitrary components) + probe-operator correspondence at word level',
+    design_ref='DESIGN.md §6 C14',
+)
